@@ -35,7 +35,9 @@ def make(kind, kw, n_ft, noise, feats, seed, instance_name=None):
     if feats:
         df = df.rename(columns={f"f{k}": feats[k] for k in range(n_ft)})
     extra = {}
-    if noise == "gaussian-diagonal":
+    if noise == "model-default":
+        pass          # the model kind fixes its own observation model (mixture)
+    elif noise == "gaussian-diagonal":
         extra["obs_models"] = observation_model_factory(noise, dimension=n_ft)
     elif noise != "gaussian-scalar":
         extra["obs_models"] = observation_model_factory(noise)
@@ -110,6 +112,7 @@ def standin_save_load(tier, seed):
         cases = []
         for q, (kind, kw, n_ft, noise, feats) in enumerate(CONFIGS if tier == "thorough" else CONFIGS[:4] + CONFIGS[5:]):
             cases.append((kind, kw, n_ft, noise, feats, None, "fit"))
+        cases.append(("mixture_logistic", dict(source_dimension=2, n_clusters=2, dimension=3), 3, "model-default", None, None, "fit"))
         cases.append(("logistic", dict(source_dimension=1), 2, "gaussian-scalar", None, "my_model", "fit"))
         cases.append(("linear", dict(source_dimension=1), 3, "gaussian-scalar", None, "Linear study #2", "fit"))
         cases.append(("logistic", dict(source_dimension=2), 3, "gaussian-scalar", None, None, "hand"))
@@ -181,7 +184,19 @@ def standin_save_load(tier, seed):
             f1, f2 = json.load(open(p1)), json.load(open(p2))
             if f1 != f2:
                 diff = [k for k in set(f1) | set(f2) if f1.get(k) != f2.get(k)]
-                violations.append(dict(key=f"{what}: saving the reloaded model does not reproduce the file (keys {sorted(diff)})"))
+
+                def as32(x):
+                    if isinstance(x, float):
+                        return float(np.float32(x))
+                    if isinstance(x, list):
+                        return [as32(y) for y in x]
+                    if isinstance(x, dict):
+                        return {k_: as32(v_) for k_, v_ in x.items()}
+                    return x
+                if as32(f1) == as32(f2):
+                    violations.append(dict(key=f"{what}: the file written by the reloaded model differs from the first one in the digits beyond single precision only (keys {sorted(diff)})"))
+                else:
+                    violations.append(dict(key=f"{what}: saving the reloaded model does not reproduce the file (keys {sorted(diff)})"))
             if len(samples) < 2:
                 samples.append(dict(model=what, keys=sorted(f1)))
             kept_models.append((what, m))
